@@ -395,11 +395,15 @@ Section Gated.
       + assert (FL : evalfree le).
         { destruct (store_find n w); [inv EF; reflexivity|].
           destruct (store_find (wild n) w); inv EF; reflexivity. }
-        destruct (maintenance is_space (load_and_maintain is_space f) (cache_add (as_loaded s) w) h (as_loaded s) held)
+        cbv zeta in H.
+        match type of H with context [cache_add (as_loaded s) ?W0] => set (w0 := W0) in * end.
+        assert (O0 : w_od w0 = w_od w) by (unfold w0; destruct (h_vanish h && negb held); reflexivity).
+        destruct (maintenance is_space (load_and_maintain is_space f) (cache_add (as_loaded s) w0) h (as_loaded s) held)
           as [[[e1 k1] r1] w2] eqn:E1.
-        apply (maint_scan _ IH) in E1 as (A1 & K1 & O1); [|rewrite (od_on_eq _ _ (od_cache_add _ _)); exact D].
+        apply (maint_scan _ IH) in E1 as (A1 & K1 & O1);
+          [|rewrite (od_on_eq _ _ (od_cache_add _ _)), (od_on_eq _ _ O0); exact D].
         inv H. destruct (A1 (Some true)) as [s1 S1].
-        split; [|split; [exact K1|rewrite O1; apply od_cache_add]].
+        split; [|split; [exact K1|rewrite O1, od_cache_add; exact O0]].
         exists s1. split; [|discriminate]. rewrite scanq_app, (scanq_true is_space n le FL Q). exact S1.
       + inv H. split; [|split; [constructor|reflexivity]].
         exists (Some true). split; [|reflexivity]. apply scanq_true; [reflexivity|exact Q].
@@ -575,10 +579,14 @@ Section OdOff.
       + assert (FL : noissue le).
         { destruct (store_find n w); [inv EF; reflexivity|].
           destruct (store_find (wild n) w); inv EF; reflexivity. }
-        destruct (maintenance is_space (load_and_maintain is_space f) (cache_add (as_loaded s) w) h (as_loaded s) held)
+        cbv zeta in H.
+        match type of H with context [cache_add (as_loaded s) ?W0] => set (w0 := W0) in * end.
+        assert (O0 : w_od w0 = w_od w) by (unfold w0; destruct (h_vanish h && negb held); reflexivity).
+        destruct (maintenance is_space (load_and_maintain is_space f) (cache_add (as_loaded s) w0) h (as_loaded s) held)
           as [[[e1 k1] r1] w2] eqn:E1.
-        apply maint_off in E1 as (A1 & K1 & O1); [|rewrite (od_on_eq _ _ (od_cache_add _ _)); exact D].
-        inv H. split; [apply noissue_app; assumption|split; [exact K1|rewrite O1; apply od_cache_add]].
+        apply maint_off in E1 as (A1 & K1 & O1);
+          [|rewrite (od_on_eq _ _ (od_cache_add _ _)), (od_on_eq _ _ O0); exact D].
+        inv H. split; [apply noissue_app; assumption|split; [exact K1|rewrite O1, od_cache_add; exact O0]].
       + inv H. split; [reflexivity|split; [constructor|reflexivity]].
   Qed.
 
@@ -724,9 +732,6 @@ End Main.
 Section QualSpec.
   Variable is_space : N -> bool.
 
-  Definition reject_chars : str :=
-    [40; 41; 91; 93; 123; 125; 60; 62; 32; 9; 10; 34; 92; 33; 64; 35; 36; 37; 94; 38; 124; 59; 39; 43; 61].
-
   Lemma has_prefix_iff p s : has_prefix p s = true <-> exists r, s = p ++ r.
   Proof.
     unfold has_prefix. destruct (strip_prefix p s) as [r|] eqn:E.
@@ -750,6 +755,10 @@ Section QualSpec.
     - intros [r Hr]. exists (rev r). rewrite <- (rev_involutive s), Hr. cbn. reflexivity.
     - intros [r ->]. exists (rev r). rewrite rev_app_distr. reflexivity.
   Qed.
+
+  (** the source as translated today says exactly what the documented rule says *)
+  Theorem qualifies_is_spec s : qualifies is_space s = qual_spec is_space s.
+  Proof. reflexivity. Qed.
 
   Theorem qualifies_spec s : qualifies is_space s = true <->
     (exists c, In c s /\ is_space c = false) /\
@@ -998,10 +1007,13 @@ Section Truthful.
       + assert (FL : plain le).
         { apply evalfree_plain. destruct (store_find n w); [inv EF; reflexivity|].
           destruct (store_find (wild n) w); inv EF; reflexivity. }
-        destruct (maintenance is_space (load_and_maintain is_space f) (cache_add (as_loaded s) w) h (as_loaded s) held)
+        cbv zeta in H.
+        match type of H with context [cache_add (as_loaded s) ?W0] => set (w0 := W0) in * end.
+        assert (S0 : same_pe w w0) by (unfold w0; destruct (h_vanish h && negb held); [apply same_store_del|apply same_refl]).
+        destruct (maintenance is_space (load_and_maintain is_space f) (cache_add (as_loaded s) w0) h (as_loaded s) held)
           as [[[e1 k1] r1] w2] eqn:E1.
         apply (maint_truthful _ IH) in E1 as (A1 & K1 & W1);
-          [|eapply winv_same; [apply same_cache_add|exact W]].
+          [|eapply winv_same; [apply same_cache_add|eapply winv_same; [exact S0|exact W]]].
         inv H. split; [apply plain_app; assumption|auto].
       + inv H. split; [|split; [constructor|exact W]].
         constructor; [exact I|constructor; [exact I|constructor]].
